@@ -618,6 +618,27 @@ def gen_case(seed, i, tier):
             a_, b_, c_ = [str(x) for x in rng.choice(ids, 3, replace=False)]
             cl.obs.append(netgen.Obs("angle", a_, bs=b_, fs=c_, stdev=12.0))
         net.clusters.append(cl)
+    if pick("foreign-station-obs", 0.35, dim >= 2):  # observations of another stand-point inside <obs from="S">
+        # ("distances in an observation set do not need to share a common stand-point"; any type but direction)
+        stc = [cl for cl in net.clusters if cl.kind == "obs" and cl.station is not None]
+        for cl in stc[:int(rng.integers(1, 3))]:
+            others = [x for x in ids if x != cl.station]
+            for _ in range(int(rng.integers(1, 4))):
+                a_, b_ = [str(x) for x in rng.choice(others, 2, replace=False)] if len(others) >= 2 else (None, None)
+                if a_ is None:
+                    break
+                kinds_ = ["distance", "azimuth"] + (["s-distance", "z-angle"] if dim == 3 else [])
+                kd = str(rng.choice(kinds_ + ["angle"] if len(others) >= 3 else kinds_))
+                if kd == "angle":
+                    c_ = str(rng.choice([x for x in others if x not in (a_, b_)]))
+                    o = netgen.Obs("angle", a_, bs=b_, fs=c_, stdev=12.0)
+                else:
+                    o = netgen.Obs(kd, a_, b_, stdev=5.0 if "distance" in kd else 10.0)
+                cl.obs.append(o)
+                if cl.cov is not None:
+                    C = cl.cov["C"]; k_ = C.shape[0]
+                    C2 = np.zeros((k_ + 1, k_ + 1)); C2[:k_, :k_] = C; C2[k_, k_] = o.stdev ** 2
+                    cl.cov = dict(cl.cov, C=C2)
     if pick("z-only-coords", 0.3, dim == 3):         # observed height only, in a <coordinates> of its own
         cand = [q for q in P0.values() if q.z in ("free", "constrained")]
         if cand:
